@@ -398,6 +398,24 @@ func runC06(t *testing.T, sc C06Scenario, keep bool) *core.Result {
 		if m.Reloads > 0 && len(sc.Readers) > 0 || res.Switches > 0 {
 			res.Nontrivial = true
 		}
+		// coverage target of DESIGN §5.2: operator sequences of length <= 3 over the operation kinds
+		var kinds []string
+		for i, o := range sc.Reloads {
+			if i == sc.ShutdownAt {
+				kinds = append(kinds, "shutdown")
+				break
+			}
+			kinds = append(kinds, o.Kind(sc.TimeoutMs, sc.AlwaysNew))
+		}
+		if sc.ShutdownAt >= len(sc.Reloads) {
+			kinds = append(kinds, "shutdown")
+		}
+		res.Cover = map[string]int{}
+		for i := range kinds {
+			for n := 1; n <= 3 && i+n <= len(kinds); n++ {
+				res.Cover[strings.Join(kinds[i:i+n], " > ")]++
+			}
+		}
 		res.Population = "faults"
 		clean := true
 		for i, o := range sc.Reloads {
